@@ -76,7 +76,7 @@ Emit(line, s2) == /\ Len(hist) < MaxLen
 
 StartSection ==
   /\ Complete(gs) /\ ~gs.closed
-  /\ \E kd \in Kinds, f \in Files, g \in Files :
+  /\ \E kd \in Kinds \ {"stat"}, f \in Files, g \in Files :
        /\ (TwoPaths(kd) => f # g) /\ (~TwoPaths(kd) => f = g)
        /\ Emit([c |-> IF kd = "sublog" THEN "sublog" ELSE "diff", f |-> f, g |-> g, kd |-> kd],
                [gs EXCEPT !.todo = Template(kd, f, g), !.kd = kd, !.nh = 0, !.nb = 0, !.last = "", !.pre = 0])
@@ -126,5 +126,9 @@ Text ==        \* free text: commit message, log metadata, anything before/betwe
   /\ Preamble /\ gs.kd = ""
   /\ Emit(L("other", 0, 0), gs)
 
-GNext == StartSection \/ HeaderLine \/ HunkHeader \/ Body \/ NoNewline \/ ConflictStep \/ SubLogLine \/ Blank \/ Commit \/ Text
+Stat ==        \* a `git log --stat` line " path | 3 ++-" (enabled by the pseudo-kind "stat" in Kinds)
+  /\ Preamble /\ "stat" \in Kinds /\ gs.kd = ""
+  /\ \E f \in Files : Emit(L("stat", f, 0), gs)
+
+GNext == Stat \/ StartSection \/ HeaderLine \/ HunkHeader \/ Body \/ NoNewline \/ ConflictStep \/ SubLogLine \/ Blank \/ Commit \/ Text
 =============================================================================
